@@ -32,7 +32,10 @@ pub fn conformance() -> Vec<Ill> {
       };
       push(
         format!("{tname} class lacks interface method `{name}`"),
-        format!("interface I {{ method {name}(): int }}\nclass C{typedef} : I {{ }}\nclass Main {{\n{user}  function main(): unit = {{ }}\n}}\n"),
+        format!(
+          "interface I {{ method {name}(): int }}\nclass C{typedef} : I {{ }}\nclass Main {{\n{user}  function main(): unit = {{ {} }}\n}}\n",
+          if mk.is_empty() { "" } else { "Process.println(Str.fromInt(Main.go()))" }
+        ),
       );
     }
     push(
